@@ -529,3 +529,156 @@ void h_ec_quit(void)
 	__CPROVER_assert(0, "canary");
 #endif
 }
+
+/* ================================================================== ex_command: one sequence bump per top-level command (C02, C04) */
+int ex_exec_contract(char *ln)
+__CPROVER_requires(ln != 0)
+__CPROVER_assigns(E, B.show_calls, B.print_calls, B.saved_calls, xrow, xoff, g_len)
+__CPROVER_ensures(B.mod_calls == __CPROVER_old(B.mod_calls))
+;
+
+int ex_command_contract(char *ln)
+__CPROVER_requires(ln != 0 && bufs[0].lb != 0)
+__CPROVER_assigns(E, B.show_calls, B.print_calls, B.saved_calls, B.mod_calls, xrow, xoff, g_len)
+__CPROVER_ensures(B.mod_calls == __CPROVER_old(B.mod_calls) + 1)
+;
+
+void h_ex_command(void)
+{
+	char ln[4];
+	GHOST_INIT();
+	FILE_ENV_HAVOC();
+	BUFS_HAVOC();
+	__CPROVER_assume(bufs[0].lb != 0);
+	ln[3] = 0;
+	int ret = ex_command(ln);
+	/* whether the command list succeeded or failed, the command counter of the current buffer
+	 * is bumped exactly once, after the whole list: commands never share an undo step, and all
+	 * sub-commands of one list do */
+	__CPROVER_assert(B.mod_calls == 1, "ex_command: bumps the sequence counter exactly once per top-level command, also when the command fails");
+#ifdef CANARY
+	__CPROVER_assert(0, "canary");
+#endif
+}
+
+/* ================================================================== the buffer table (C20) */
+int g_free_calls, g_make_calls;
+struct lbuf *g_free_last;
+void lbuf_free(struct lbuf *lb)
+{
+	__CPROVER_assert(lb != 0, "lbuf_free: argument is not NULL");
+	g_free_calls++;
+	g_free_last = lb;
+}
+struct lbuf *lbuf_make(void)
+{
+	g_make_calls++;
+	return (struct lbuf *) malloc(1);
+}
+char *syn_filetype(char *path)
+{
+	static char ft[2];
+	__CPROVER_assert(path != 0, "syn_filetype: path is not NULL");
+	ft[0] = nondet_char();
+	ft[1] = 0;
+	return ft;
+}
+char *strcpy(char *d, const char *s)
+{
+	/* only used for the file type (<= 31 bytes + NUL by conf.h); modelled for the 1-char stub above */
+	__CPROVER_assert(__CPROVER_w_ok(d, 2), "strcpy: destination writable");
+	d[0] = s[0];
+	d[1] = 0;
+	return d;
+}
+
+struct buf g_old[16];
+int g_k;	/* witness slot */
+int g_fb;	/* witness byte of the file-type field */
+#define SAMEBUF(a, b)	((a).lb == (b).lb && (a).path == (b).path && (a).id == (b).id && (a).td == (b).td && \
+	(a).mtime == (b).mtime && (a).row == (b).row && (a).off == (b).off && (a).top == (b).top && \
+	(a).left == (b).left && (a).ft[0] == (b).ft[0] && (a).ft[31] == (b).ft[31])
+
+void bufs_switch_frame_contract(int idx)
+__CPROVER_requires(0 <= idx && idx < 16 && bufs[idx].lb != 0)
+__CPROVER_assigns(__CPROVER_object_whole(bufs), xrow, xoff, xtop, xleft, xtd, B.regput_calls)
+;
+
+void h_bufs_switch(void)
+{
+	int idx = nondet_int(), k;
+	GHOST_INIT();
+	FILE_ENV_HAVOC();
+	BUFS_HAVOC();
+	g_k = nondet_int();
+	__CPROVER_assume(0 <= g_k && g_k < 16);
+	__CPROVER_assume(0 <= idx && idx < 16 && bufs[idx].lb != 0);
+	for (k = 0; k < 16; k++) {
+		bufs[k].ft[0] = nondet_char();	/* first and last byte of the file-type field stand for the field */
+		bufs[k].ft[31] = nondet_char();
+		g_old[k] = bufs[k];
+	}
+	int g_free0 = g_free_calls, g_make0 = g_make_calls;
+	/* the view of the current buffer is saved into slot 0 before the rotation */
+	g_old[0].row = xrow; g_old[0].off = xoff; g_old[0].top = xtop; g_old[0].left = xleft; g_old[0].td = (short) xtd;
+	/* case split over the 16 slots: each call has a constant index, hence constant copy sizes */
+	switch (idx) {
+#define SW_(n) case n: bufs_switch(n); break;
+	SW_(0) SW_(1) SW_(2) SW_(3) SW_(4) SW_(5) SW_(6) SW_(7)
+	SW_(8) SW_(9) SW_(10) SW_(11) SW_(12) SW_(13) SW_(14) SW_(15)
+#undef SW_
+	}
+	/* a rotation: the named buffer comes to the front, those before it move down by one, the rest stay */
+	__CPROVER_assert(SAMEBUF(bufs[0], g_old[idx]), "bufs_switch: the buffer reached is the one named (slot idx comes to the front)");
+	if (g_k >= 1 && g_k <= idx)
+		__CPROVER_assert(SAMEBUF(bufs[g_k], g_old[g_k - 1]), "bufs_switch: slots before idx move down by one, each keeping its text, position and file");
+	if (g_k > idx)
+		__CPROVER_assert(SAMEBUF(bufs[g_k], g_old[g_k]), "bufs_switch: slots after idx are untouched");
+	/* the view of the reached buffer is loaded */
+	__CPROVER_assert(xrow == g_old[idx].row && xoff == g_old[idx].off && xtop == g_old[idx].top &&
+		xleft == g_old[idx].left && xtd == g_old[idx].td, "bufs_switch: cursor and window of the reached buffer are restored");
+	/* no line buffer is touched: no lbuf_* call at all */
+	__CPROVER_assert(B.mod_calls == 0 && B.saved_calls == 0, "bufs_switch: no buffer's dirty state is consulted or changed");
+	__CPROVER_assert(g_free_calls == g_free0 && g_make_calls == g_make0 && B.rd_calls == 0, "bufs_switch: no buffer is freed, created or re-read");
+#ifdef CANARY
+	__CPROVER_assert(0, "canary");
+#endif
+}
+
+/* lookup by path, free slot, renumbering */
+void h_bufs_find(void)
+{
+	char path[2];
+	int k;
+	GHOST_INIT();
+	FILE_ENV_HAVOC();
+	BUFS_HAVOC();
+	g_k = nondet_int();
+	__CPROVER_assume(0 <= g_k && g_k < 16);
+	path[0] = nondet_char(); path[1] = 0;
+	__CPROVER_assume(path[0] != '/');	/* "/" is looked up as "" (the unnamed buffer) */
+	int r = bufs_find(path);
+	__CPROVER_assert(r >= -1 && r < 16, "bufs_find: slot index or -1");
+	if (r >= 0)
+		__CPROVER_assert(bufs[r].path != 0 && strcmp(bufs[r].path, path) == 0, "bufs_find: the slot found holds the path asked for");
+	if (bufs[g_k].path != 0 && strcmp(bufs[g_k].path, path) == 0)
+		__CPROVER_assert(r >= 0 && r <= g_k, "bufs_find: an open path is found (re-editing returns to the existing buffer), first match wins");
+	int room = bufs_findroom();
+	__CPROVER_assert(0 <= room && room < 16, "bufs_findroom: a slot index");
+	__CPROVER_assert(bufs[room].lb == 0 || room == 15, "bufs_findroom: an empty slot, or the last slot when all 16 are in use");
+	if (g_k < room)
+		__CPROVER_assert(bufs[g_k].lb != 0, "bufs_findroom: the first empty slot");
+	/* renumbering: ids 1..n in slot order */
+	bufs_number();
+	int n = 0;
+	for (k = 0; k < 16; k++)
+		if (bufs[k].lb) {
+			n++;
+			if (k == g_k)
+				__CPROVER_assert(bufs[k].id == n, "bufs_number: ids are dense and follow slot order");
+		}
+	__CPROVER_assert(bufs_cnt == n, "bufs_number: the id counter equals the number of open buffers");
+#ifdef CANARY
+	__CPROVER_assert(0, "canary");
+#endif
+}
